@@ -19,7 +19,7 @@ RULE = ('case = 1..6 base stations above the floor, misalignment rotation 0..30 
         '(seed, flip class, noise) systems evaluated.')
 ASSUMPTIONS = ['noise-free exactness tolerance 1e-4 m / 1e-4 rad (measured worst values in the evidence)',
                'with noise only rigidity, properness and a 10-sigma bound on the mapped reference points are required']
-REQUIRED = ['mon.alignments_with_the_samples_in_arrays_or_tuples', 'mon.align_noise_free', 'mon.align_noisy', 'mon.align_mirror_cases', 'mon.rigidity_pairs', 'mon.scale_fixed_point', 'mon.scale_fixed_point_off_direction',
+REQUIRED = ['mon.scale_factors_within_a_thousandth_of_one', 'mon.alignments_with_the_samples_in_arrays_or_tuples', 'mon.align_noise_free', 'mon.align_noisy', 'mon.align_mirror_cases', 'mon.rigidity_pairs', 'mon.scale_fixed_point', 'mon.scale_fixed_point_off_direction',
             'mon.scale_diagonals', 'mon.inputs_unchanged', 'mon.misalignment_25_to_30_deg', 'mon.scale_with_repeated_pose_objects']
 
 
@@ -154,6 +154,10 @@ def run(desc, ctx):
         cf_w = [Pose(R, t) for (R, t) in rm['cf']]
         bs_w = {i: Pose(*rm['bs'][i]) for i in rm['ids']}
         s_true = rnd.uniform(0.2, 5.0)
+        if it % 4 == 3:
+            # a system that is (almost) at the right scale already
+            s_true = rnd.choice((1.0, 1.0 + rnd.uniform(-1e-5, 1e-5), 1.0 + rnd.uniform(-1e-3, 1e-3), 1.0 + rnd.uniform(-1e-7, 1e-7)))
+            ctx.count('mon.scale_factors_within_a_thousandth_of_one')
         bs_in = {i: Pose(p.rot_matrix.copy(), p.translation / s_true) for i, p in bs_w.items()}
         cf_in = [Pose(p.rot_matrix.copy(), p.translation / s_true) for p in cf_w]
         bs_keep, cf_keep = copy.deepcopy(bs_in), copy.deepcopy(cf_in)
